@@ -397,6 +397,11 @@ func (p *Project) RenderModule(m *Module) string {
 		case nonJS:
 			fmt.Fprintf(&sb, "import asset%d from %s;\n", id, q)
 			used = append(used, fmt.Sprintf("asset%d", id))
+		case im.Style == ImpNamed && t != nil && t.Feat&FeatCollide != 0 && t.Kind != "cjs":
+			// every module with this feature exports the same names (init, shared): symbols
+			// with one original name from several files meet in one chunk
+			fmt.Fprintf(&sb, "import { %s as a%d, %s as b%d, init as i%d } from %s;\n", v, id, f, id, id, q)
+			used = append(used, fmt.Sprintf("a%d", id), fmt.Sprintf("b%d(1)", id), fmt.Sprintf("i%d()", id))
 		case im.Style == ImpNamed:
 			fmt.Fprintf(&sb, "import { %s as a%d, %s as b%d } from %s;\n", v, id, f, id, q)
 			used = append(used, fmt.Sprintf("a%d", id), fmt.Sprintf("b%d(1)", id))
@@ -433,6 +438,9 @@ func (p *Project) RenderModule(m *Module) string {
 	}
 	if m.Feat&FeatCollide != 0 {
 		fmt.Fprintf(&sb, "let helper = (x) => x + %d;\nlet value = helper(%d);\nfunction shared() { return value }\n", m.ID, m.Salt)
+		if !cjs {
+			fmt.Fprintf(&sb, "export function init() { return helper(%d) }\n", m.ID)
+		}
 		used = append(used, "shared()")
 	}
 	if m.Feat&FeatMangle != 0 {
